@@ -40,7 +40,9 @@ DOCS = [
     ('et', '<a/>'),
     ('et', '<a><b>1</b>t1<b>2</b>t2<c/>t3</a>'),
     ('lxml', '<a><b>x</b>tail<!--c--><?pi y?><b/>end</a>'),
-    ('et', '<a><b>x&#13;y</b>t&#13;<c>&#13;</c>z<b/></a>'),      # U+000D in text and tail (fn:serialize marks it in a deep copy)
+    ('et', '<a><b>x&#13;y</b>t&#13;<c>&#13;</c>z<b/></a>'),
+    ('et', '<a xml:lang="en-US"><b><c>x</c></b><d xml:lang="de"><b/><e/></d></a>'),
+    ('lxml', '<a xml:lang="en"><b xml:lang="fr-CA"><c><b>x</b></c></b><d/></a>'),      # U+000D in text and tail (fn:serialize marks it in a deep copy)
 ]
 
 
@@ -1427,14 +1429,19 @@ def context_reuse_histories(run: Run) -> None:
              "(//b)[last()]/preceding-sibling::b/string()", "some $x in //b satisfies $x/$undef", "//c/ancestor::*/name()",
              "//b[xs:integer(.) idiv 0 = 1]", ". instance of element()", "//b treat as element()*", "//b instance of element()+", "//b ! position()", "/*/node()[3]/string()", "sum(//b[. castable as xs:integer])",
              "//b/string-length#0()", "//b[position() = last()]", "name(..)", "count(./*)", "let $v := 9 return $v + count(//b)", "$v",
-             "for $v in (1, 2) return $v", "function($v) { $v }(5) + $v", "every $x in //b satisfies $x = $v"] + \
+             "for $v in (1, 2) return $v", "function($v) { $v }(5) + $v", "every $x in //b satisfies $x = $v",
+             # functions / shortcuts that walk an axis of the caller's context and stop early
+             "lang('en')", "lang('de')", "lang('EN-us')", "lang('fr')", "lang('en', .)", "lang('en', ..)", "*[lang('en')]", "//*[lang('de')]/name()",
+             "..", "name(..)", "../name()", "../..", "ancestor::*[1]/name()", "(ancestor-or-self::*)[1]/name()", "exists(..)",
+             "boolean(ancestor::*)", "(following::*)[1]/name()", "(preceding::*)[1]/name()", "head(descendant::*)/name()",
+             "some $x in ancestor::* satisfies name($x) = 'a'", "(../*)[1] is ."] + \
             [e for e in CACHE_EXPRS if '$p:' not in e and 'Q{' not in e]
     parser = XPath31Parser(namespaces=dict(NS))
     tokens = {}
 
-    def run_one(tk, ctx):
+    def run_one(tk, ctx, api='get_results'):
         try:
-            return canon_any(tk.get_results(ctx))
+            return canon_any(getattr(tk, api)(ctx))
         except RecursionError as e:
             return canon_error(e)
         except Exception as e:  # noqa
@@ -1448,8 +1455,13 @@ def context_reuse_histories(run: Run) -> None:
         if rng.random() < 0.4:
             root = root.getroottree() if hasattr(root, 'getroottree') else __import__('xml.etree.ElementTree').etree.ElementTree.ElementTree(root)
         v = rng.randrange(1, 4)
-        ctx = XPathContext(root, namespaces=dict(NS), variables={'v': v})
-        s0, hist = state(ctx), []
+        # the context item: the root / document, or (half of the time) some element below it
+        inner = [x for x in (root.getroot() if hasattr(root, 'getroot') else root).iter() if isinstance(x.tag, str)]
+        item = rng.choice(inner) if rng.random() < 0.5 else None
+        mk = (lambda: XPathContext(root, namespaces=dict(NS), variables={'v': v})) if item is None else \
+            (lambda: XPathContext(root, namespaces=dict(NS), item=item, variables={'v': v}))
+        ctx = mk()
+        s0, hist, f05f = state(ctx), [], False
         for _ in range(rng.randrange(4, 12)):
             e = rng.choice(exprs)
             hist.append(e)
@@ -1457,11 +1469,16 @@ def context_reuse_histories(run: Run) -> None:
                 tk = tokens.get(e) or tokens.setdefault(e, parser.parse(e))
             except Exception:  # noqa
                 continue
-            got = run_one(tk, ctx)
-            fresh = run_one(parser.parse(e), XPathContext(root, namespaces=dict(NS), variables={'v': v}))
+            api = rng.choice(['get_results', 'get_results', 'evaluate'])
+            got = run_one(tk, ctx, api)
+            fresh = run_one(parser.parse(e), mk(), api)
             run.stats.count('context-reuse-steps')
-            case = {'document': DOCS[d][1], 'v': v, 'expressions_on_one_context': list(hist)}
-            tags = []
+            case = {'document': DOCS[d][1], 'v': v, 'context_item': None if item is None else str(item.tag),
+                    'last_api': api, 'expressions_on_one_context': list(hist)}
+            # trigger of finding F05f (until fix-c05-4 is picked): lang( / boolean( / not( or a bare `..` through evaluate()
+            # was evaluated on this context
+            f05f = f05f or bool(re.search(r'\b(lang|boolean|not)\s*\(', e)) or (e.strip() == '..' and api == 'evaluate')
+            tags = ['F05f'] if f05f else []
             if got != fresh:
                 run.disagree(Disagreement(case, got, None, spec=fresh, what='reused-context-vs-fresh', site='XPathContext focus',
                                           tags=tags))
